@@ -1,6 +1,8 @@
 // Queue-based streaming compressor API
 // Provides simple push() interface with automatic backpressure and constant memory usage
 
+#[cfg(ragc_verif_sched)]
+use crate::verif_std as std;
 use crate::kmer_extract::{enumerate_kmers, remove_non_singletons};
 use crate::lz_diff::LZDiff;
 use crate::memory_bounded_queue::MemoryBoundedQueue;
@@ -5050,6 +5052,8 @@ fn worker_thread(
             if config.verbosity > 0 {
                 eprintln!("Worker {} flushing final batch before exit", worker_id);
             }
+            #[cfg(ragc_verif_sched)]
+            std::qevent("w.exit", worker_id as i64, 0);
             flush_batch(
                 &segment_groups,
                 &pending_batch_segments,
@@ -5083,6 +5087,8 @@ fn worker_thread(
 
         // Handle sync tokens with barrier synchronization (matches C++ AGC registration stage)
         if task.is_sync_token {
+            #[cfg(ragc_verif_sched)]
+            std::qevent("w.token", worker_id as i64, task.sample_priority as i64);
             let sync_start = std::time::Instant::now();
             sync_count += 1;
             if config.verbosity > 0 {
@@ -5098,6 +5104,8 @@ fn worker_thread(
 
             // Barrier 1: All workers arrive at sample boundary
             let barrier_start = std::time::Instant::now();
+            #[cfg(ragc_verif_sched)]
+            std::point("w.barrier", 1, worker_id as i64);
             barrier.wait();
             total_barrier_wait += barrier_start.elapsed();
 
@@ -5161,6 +5169,8 @@ fn worker_thread(
 
             // Barrier 2: All workers see prepared buffers
             let barrier_start = std::time::Instant::now();
+            #[cfg(ragc_verif_sched)]
+            std::point("w.barrier", 2, worker_id as i64);
             barrier.wait();
             total_barrier_wait += barrier_start.elapsed();
 
@@ -5169,6 +5179,8 @@ fn worker_thread(
             // Workers compress segments and buffer archive writes (C++ AGC: AddPartBuffered)
             // Buffering is fast (memory only), flush happens after barrier
             loop {
+                #[cfg(ragc_verif_sched)]
+                std::point("w.claim", 0, worker_id as i64);
                 let Some(idx) = parallel_state.claim_next_idx() else {
                     break;
                 };
@@ -5205,6 +5217,8 @@ fn worker_thread(
 
             // Barrier 3: All workers done with compression and buffering
             let barrier_start = std::time::Instant::now();
+            #[cfg(ragc_verif_sched)]
+            std::point("w.barrier", 3, worker_id as i64);
             barrier.wait();
             total_barrier_wait += barrier_start.elapsed();
 
@@ -5279,6 +5293,8 @@ fn worker_thread(
 
             // Barrier 4: All workers ready for next batch (reduced from 2 barriers)
             let barrier_start = std::time::Instant::now();
+            #[cfg(ragc_verif_sched)]
+            std::point("w.barrier", 4, worker_id as i64);
             barrier.wait();
             total_barrier_wait += barrier_start.elapsed();
 
@@ -5396,10 +5412,14 @@ fn worker_thread(
 
         // ONE lock acquisition for entire contig (reduces contention significantly)
         // Push to this worker's own buffer (NO CONTENTION - each worker has its own buffer)
+        #[cfg(ragc_verif_sched)]
+        std::point("w.raw_push", task.sequence as i64, worker_id as i64);
         raw_segment_buffers[worker_id]
             .lock()
             .unwrap()
             .extend(contig_segments);
+        #[cfg(ragc_verif_sched)]
+        std::qevent("w.raw_pushed", task.sequence as i64, worker_id as i64);
 
         // End timing for segment processing
         total_segment_processing += segment_start.elapsed();
